@@ -245,8 +245,9 @@ def _build_sheet_id(sheet='', directory='', filename='', **kw):
             if directory and not directory.endswith('/'):
                 directory += '/'
             sheet = "'%s[%s]%s'" % (directory, filename, quoted)
-    elif sheet and not _re_plain_sheet.match(sheet):
-        sheet = "'%s'" % quoted  # E.g., `A B`, `IT'S`, `A-B`, `2020`.
+    elif sheet and (
+            not _re_plain_sheet.match(sheet) or sheet in ('TRUE', 'FALSE')):
+        sheet = "'%s'" % quoted  # E.g., `A B`, `IT'S`, `A-B`, `2020`, `TRUE`.
     return sheet
 
 
